@@ -95,6 +95,13 @@ class C11(Check):
         for name, nom in self.nominal.items():
             for idx in sorted({0, nom["n"] - 1}):
                 cs.append({"name": name, "idx": idx, "twofaults": True})
+        # the other dongle classes (TCP, SGX: their own connect / disconnect): first and last exchange
+        for name, nom in self.nominal.items():
+            if name == "uiHeartbeat":
+                continue          # leaves and re-enters the signer: a Ledger matter
+            for idx in sorted({0, nom["n"] - 1}):
+                for plat in ("tcp", "sgx"):
+                    cs.append({"name": name, "idx": idx, "platform": plat})
         # the link failure IS a restart of the device (back in the bootloader, locked), at every exchange
         # of every command: whatever the command does about it on its way out, the next request
         # starts with the repair
@@ -120,8 +127,11 @@ class C11(Check):
         v1 = name.startswith("v1-")
         dev = dialogues.configure(PowHsm(seed=b"c11"), name)
         w = World(dev)
-        w.hid_model = True       # a device that went away is found again only after a reset of the HID stack
-        proto = harness.make_protocol(w, v1=v1, debug=debug)
+        platform = getattr(self, "platform", "ledger")
+        dev.platform = platform
+        # a device that went away is found again only after a reset of the HID stack (USB only)
+        w.hid_model = platform == "ledger"
+        proto = harness.make_protocol(w, v1=v1, debug=debug, platform=platform)
         base = len(w.log)
         armed = {"on": idx is not None, "base": None}
 
@@ -186,8 +196,14 @@ class C11(Check):
 
     def run_case(self, case, stats):
         self.debug_dongle = bool(case.get("iodebug"))
+        self.platform = case.get("platform", "ledger")
         try:
             vs = self._run_case(case, stats)
+            if self.platform != "ledger":
+                for v in vs:
+                    if isinstance(v.d.get("case"), dict):
+                        v.d["case"]["platform"] = self.platform
+                        v.d["key"] = v.d["key"] + ":" + self.platform
             if self.debug_dongle:
                 for v in vs:
                     if isinstance(v.d.get("case"), dict):
@@ -196,6 +212,7 @@ class C11(Check):
             return vs
         finally:
             self.debug_dongle = False
+            self.platform = "ledger"
 
     def _run_case(self, case, stats):
         vs = []
